@@ -189,8 +189,36 @@ def coq_make(targets, timeout=3600):
         lock.close()
 
 
-def lint():
-    p = subprocess.run([str(VERIF / 'lint.sh')], stdout=subprocess.PIPE, stderr=subprocess.STDOUT, text=True)
+def dep_closure(targets):
+    """the .v files the given .vo targets depend on (from coq_makefile's .Makefile.d); None if unknown"""
+    depfile = COQ / '.Makefile.d'
+    if not depfile.exists():
+        return None
+    deps = {}
+    for line in depfile.read_text().splitlines():
+        if ':' not in line:
+            continue
+        lhs, rhs = line.split(':', 1)
+        vo = [t for t in lhs.split() if t.endswith('.vo')]
+        if not vo:
+            continue
+        deps[vo[0]] = [t for t in rhs.split() if t.endswith('.vo')]
+    seen, todo = set(), [t for t in targets]
+    while todo:
+        t = todo.pop()
+        if t in seen:
+            continue
+        seen.add(t)
+        if t not in deps:
+            return None
+        todo += deps[t]
+    return sorted(t[:-1] for t in seen)     # X.vo -> X.v
+
+
+def lint(targets=None):
+    """lint gate over the dependency closure of the given targets (the whole tree when unknown)"""
+    files = dep_closure(targets) if targets else None
+    p = subprocess.run([str(VERIF / 'lint.sh')] + (files or []), stdout=subprocess.PIPE, stderr=subprocess.STDOUT, text=True)
     return p.returncode == 0, p.stdout
 
 
@@ -231,11 +259,11 @@ def harvest_assumptions(ctx, prop_file):
 
 def static_proofs(ctx, prop_files, extra_targets=()):
     """lint + build of the property's theorem files (and everything they depend on)."""
-    ok, out = lint()
-    if not ok:
-        ctx.broken_tie('lint', out)
     targets = [re.sub(r'\.v$', '.vo', f) for f in prop_files] + list(extra_targets)
     ok, out = coq_make(targets)
+    lok, lout = lint(targets)        # every file this property's theorems depend on (whole tree if unknown)
+    if not lok:
+        ctx.broken_tie('lint', lout)
     ctx.coverage['checker_cmd'] = f'make -j{NCPU} ' + ' '.join(targets) + ' (coqc 8.16.1, full .vo) + coqc on generated cases'
     if not ok:
         m = re.search(r'File "([^"]+)", line (\d+)', out)
